@@ -32,3 +32,22 @@ def start_set_update(pm, new):
 def scan_twice(master_a, master_b):
     master_a.fast_scan()
     return master_b.fast_scan()
+
+
+def bits_set(holder, key, value):
+    from canopen.variable import Bits
+    b = Bits(holder)
+    b[key] = value
+
+
+def bits_get(holder, key):
+    from canopen.variable import Bits
+    return Bits(holder)[key]
+
+
+def bits_after_other_view(var, k1, newraw, key, value):
+    """history: look at a bit field, change the value through the raw view, then assign a bit field"""
+    var.bits[k1]
+    var.raw = newraw
+    var.bits[key] = value
+    return var.raw
